@@ -179,7 +179,10 @@ func (n *DLQHandlerNode) Nack(msg *Message, nackMetadata NackMetadata) error {
 	writeTime := time.Now()
 	err = n.Handler.Write(msg.Ctx, dlqRecord)
 	if err != nil {
-		return err
+		// The DLQ write failed, we need to stop the pipeline for good, as
+		// recovering could lead to an endless loop of restarts that each
+		// write the same record to the failing DLQ again.
+		return cerrors.FatalError(err)
 	}
 	n.Timer.Update(time.Since(writeTime))
 	n.Histogram.Observe(dlqRecord)
